@@ -157,8 +157,8 @@ func stlMetaDenote(g stlGSI, ignoreTCP bool, withLang bool) string {
 	if withLang {
 		lang = g.Lang
 	}
-	return fmt.Sprintf("fps=%d dsc=%q lang=%q title=%q oet=%q tpt=%q tet=%q tn=%q tcd=%q slr=%q co=%q pub=%q en=%q ecd=%q cd=%q rd=%q rn=%d mnc=%d mnr=%d tcp=%d\n",
-		g.FPS, g.DSC, lang, g.OPT, g.OET, g.TPT, g.TET, g.TN, g.TCD, g.SLR, g.CO, g.PUB, g.EN, g.ECD, g.CD, g.RD, g.RN, g.MNC, g.MNR, tcp)
+	return fmt.Sprintf("fps=%d dsc=%q lang=%q title=%q oet=%q tpt=%q tet=%q tn=%q tcd=%q slr=%q co=%q pub=%q en=%q ecd=%q cd=%q rd=%q rn=%d mnc=%d mnr=%d tcp(x10ns)=%d\n",
+		g.FPS, g.DSC, lang, g.OPT, g.OET, g.TPT, g.TET, g.TN, g.TCD, g.SLR, g.CO, g.PUB, g.EN, g.ECD, g.CD, g.RD, g.RN, g.MNC, g.MNR, tcp/10)
 }
 
 func stlProjectMeta(md *astisub.Metadata) string {
@@ -181,7 +181,7 @@ func stlProjectMeta(md *astisub.Metadata) string {
 		g.MNR = *md.STLMaximumNumberOfDisplayableRows
 	}
 	s := stlMetaDenote(g, true, true)
-	return strings.Replace(s, "tcp=0\n", fmt.Sprintf("tcp=%d\n", int64(md.STLTimecodeStartOfProgramme)), 1)
+	return strings.Replace(s, "tcp(x10ns)=0\n", fmt.Sprintf("tcp(x10ns)=%d\n", int64(md.STLTimecodeStartOfProgramme)/10), 1)
 }
 
 func stlColorName(c *astisub.Color) string {
@@ -552,6 +552,36 @@ func stlExpectCues(m stlModel, ignoreTCP bool) string {
 	return b.String()
 }
 
+// stlSameWithin1ns compares two cue denotations, allowing the two instants of a "cue k: a-b ..." line to differ by 1 ns
+// (a frame of 1/30 s is not a whole number of nanoseconds)
+func stlSameWithin1ns(a, b string) bool {
+	if a == b {
+		return true
+	}
+	la, lb := strings.Split(a, "\n"), strings.Split(b, "\n")
+	if len(la) != len(lb) {
+		return false
+	}
+	for i := range la {
+		if la[i] == lb[i] {
+			continue
+		}
+		var k1, k2 int
+		var s1, e1, s2, e2 int64
+		var r1, r2 string
+		n1, _ := fmt.Sscanf(la[i], "cue %d: %d-%d %s", &k1, &s1, &e1, &r1)
+		n2, _ := fmt.Sscanf(lb[i], "cue %d: %d-%d %s", &k2, &s2, &e2, &r2)
+		if n1 != 4 || n2 != 4 || k1 != k2 || s1-s2 > 1 || s2-s1 > 1 || e1-e2 > 1 || e2-e1 > 1 {
+			return false
+		}
+		// the rest of the line (after the instants) must be identical
+		if la[i][strings.Index(la[i], " vp="):] != lb[i][strings.Index(lb[i], " vp="):] {
+			return false
+		}
+	}
+	return true
+}
+
 func stlProjectCues(s *astisub.Subtitles) string {
 	var b strings.Builder
 	for k, it := range s.Items {
@@ -600,7 +630,7 @@ func c05Reader(c *fw.Ctx, enumerate [][]byte) fw.Outcome {
 		if exp, have := stlMetaDenote(model.G, ignore, true), stlProjectMeta(got.Metadata); exp != have {
 			return fw.Bad(key, fmt.Sprintf("%x", doc), "STL reader metadata (ignoreTCP=%v): expected %s got %s", ignore, exp, have)
 		}
-		if exp, have := stlExpectCues(model, ignore), stlProjectCues(got); exp != have {
+		if exp, have := stlExpectCues(model, ignore), stlProjectCues(got); !stlSameWithin1ns(exp, have) {
 			return fw.Bad(key, fmt.Sprintf("%x", doc), "STL reader (fps=%d dsc=%s ignoreTCP=%v tcp=%v): %s", model.G.FPS, model.G.DSC, ignore, model.G.TCP, firstDiff(exp, have))
 		}
 	}
@@ -880,13 +910,13 @@ func c05Writer(c *fw.Ctx) fw.Outcome {
 	var hits []string
 	match := func(have string, who string) (string, bool) {
 		strict := exp(model, false, false)
-		if have == strict {
+		if stlSameWithin1ns(strict, have) {
 			return "", true
 		}
 		// recorded findings, each a precise alternative prediction
 		dollar := hasDollar && c.IsKnown(c05FindingDollar)
 		tele := teletext && c.IsKnown(c05FindingTeletext)
-		if (dollar || tele) && have == exp(model, dollar, tele) {
+		if (dollar || tele) && stlSameWithin1ns(exp(model, dollar, tele), have) {
 			if tele {
 				hits = append(hits, c05FindingTeletext)
 			} else {
